@@ -159,6 +159,33 @@ def spell_features(rng, feats):
     return rng.choice([set, frozenset, list, tuple])(items)
 
 
+class IntSub(int):
+    """A user's own int subclass (argument-spelling ingredient)."""
+    __slots__ = ()
+
+
+def spell_int(rng, n, p=0.12):
+    """The integer `n` as a caller may legitimately spell it: a plain int, a bool (for 0/1), an IntEnum member
+    or another int subclass. Anything that is not a plain int, or with probability 1-p, is returned as is."""
+    if type(n) is not int or rng.random() >= p:
+        return n
+    form = rng.choice(["sub", "enum", "bool" if n in (0, 1) else "sub"])
+    if form == "bool":
+        return bool(n)
+    if form == "enum":
+        import enum
+        return enum.IntEnum("Arg", {"V": n}).V
+    return IntSub(n)
+
+
+def spell_bool(rng, b, p=0.3):
+    """A flag as a caller may spell it: the bool itself, or a truthy/falsy int or IntEnum member of the same truth."""
+    if type(b) is not bool or rng.random() >= p:
+        return b
+    import enum
+    return rng.choice([int(b), IntSub(int(b)), enum.IntEnum("Flag", {"OFF": 0, "ON": 1})(int(b))])
+
+
 def bits(rng, width):
     return rng.getrandbits(width) if width > 0 else 0
 
